@@ -10,6 +10,7 @@ import (
 	"os"
 	"sync"
 
+	"verif/harness/pipeconn"
 	"verif/harness/rec"
 	"verif/harness/session"
 )
@@ -54,6 +55,7 @@ func replay(args []string) {
 	}
 	defer os.RemoveAll(tdir)
 	session.TLSDir = tdir
+	pipeconn.Limit = 1024 // like a small socket buffer: a peer that stops reading blocks the writer
 
 	f, err := os.Open(*in)
 	if err != nil {
